@@ -56,6 +56,7 @@ class Evidence(object):
         self.nontrivial = set()
         self.samples = []
         self.functions = set()
+        self.interpreted = set()
         self.rule_instances = {}
         self.floors = {}
         self.assumptions = []
@@ -96,6 +97,7 @@ class Evidence(object):
             samples=self.samples[:12] or ["(no obligations)"],
             exhaustive=self.exhaustive,
             functions_analysed=sorted(self.functions),
+            functions_interpreted=sorted(self.interpreted),
             rule_instances=self.rule_instances,
             rule_instance_floors=self.floors,
             trusted_base=self.trusted_base or list(self.assumptions),
